@@ -114,6 +114,10 @@ package replicator
 
 // AddHashToQueue / AddEntryToQueue: a hash already in the task table or in the log is refused and nothing
 // changes; otherwise it is queued exactly once in state added.
+// closedUnder(l, c): everything reachable from entry c is in log l. From the property (C11): "a later request for
+// the same or newer heads ... makes all reachable entries visible" — so a requested hash may be skipped as
+// already known only when nothing behind it is missing.
+//@ spec func closedUnder(l Iface, c V_cid_Cid) Bool
 //@ func (*replicator).AddHashToQueue
 //@   props C11 C10
 //@   flag nilcalls
@@ -124,6 +128,7 @@ package replicator
 //@   ensures !exist ==> len(deref(r.queue)) == len(Q0) + 1 && itemHash(deref(r.queue)[len(Q0)]) == hash && (hash in r.tasks) && r.tasks[hash] == stateAdded
 //@   ensures !exist ==> (forall j Int :: 0 <= j && j < len(Q0) ==> deref(r.queue)[j] == Q0[j]) && (forall h V_cid_Cid :: h != hash ==> (h in r.tasks) == old(h in r.tasks) && r.tasks[h] == old(r.tasks[h]))
 //@   ensures !exist ==> deref(r.queue)[len(Q0)] != nil
+//@   ensures @C11 exist && !old(hash in r.tasks) ==> closedUnder(stLog(r.store), hash)
 //@   modifies mapof(r.tasks), cell(r.queue, "Slice<Iface>")
 //@ func (*replicator).AddEntryToQueue
 //@   props C11 C10
@@ -134,6 +139,7 @@ package replicator
 //@   ensures exist == (old(hash in r.tasks) || inLog(stLog(r.store), hash))
 //@   ensures exist ==> deref(r.queue) == Q0 && (forall h V_cid_Cid :: (h in r.tasks) == old(h in r.tasks) && r.tasks[h] == old(r.tasks[h]))
 //@   ensures !exist ==> len(deref(r.queue)) == len(Q0) + 1 && itemHash(deref(r.queue)[len(Q0)]) == hash && (hash in r.tasks) && r.tasks[hash] == stateAdded
+//@   ensures @C11 exist && !old(hash in r.tasks) ==> closedUnder(stLog(r.store), hash)
 //@   modifies mapof(r.tasks), cell(r.queue, "Slice<Iface>")
 
 // isIdle: true only when no task is added or fetching.
